@@ -33,6 +33,7 @@ import (
 const (
 	c14DeliveredBound = 20 << 20  // bytes one inflater may deliver ("of the order of the 10 MB cap")
 	c14AllocBound     = 160 << 20 // TotalAlloc delta across ServeHTTP
+	c14TotalBound     = 44 << 20  // bytes all inflaters together may deliver while ONE request is served (unchanged tree: at most two passes of <= 10 MiB + 1)
 	c14Ceiling        = 128 << 20 // the counting reader aborts the execution beyond this
 	c14RetainedBound  = 48 << 20  // live heap kept after the request (and after a history of refused requests); unchanged tree: < 2 MiB
 )
@@ -46,6 +47,9 @@ type c14Case struct {
 	Container string `json:"container,omitempty"` // "" raw DEFLATE (what the binding specifies) | zlib (RFC 1950 wrapper) | gzip (RFC 1952 wrapper)
 	Repeat    int    `json:"repeat,omitempty"`    // the request is sent this many times to the same process first (history); the LAST one is measured
 	Fault     string `json:"fault,omitempty"`     // "op/kind": this storage operation fails once while the measured request is served
+	// FirstStream > 0: the payload is a concatenation of several complete DEFLATE streams; the first one inflates to exactly this
+	// many bytes, every further one to at most 8 MiB (a decoder that carries on after the end of a stream must still be bounded)
+	FirstStream int `json:"first_stream_bytes,omitempty"`
 }
 
 type c14Result struct {
@@ -56,6 +60,7 @@ type c14Result struct {
 	Panic      string `json:"panic,omitempty"`
 	Compressed int    `json:"compressed"`
 	Retained   uint64 `json:"retained"` // live heap after GC following the measured request minus live heap before the first request
+	Total      int64  `json:"delivered_total"` // bytes delivered by ALL inflaters while the measured request was served
 }
 
 // c14Payload streams the padded document through DEFLATE without materialising it.
@@ -106,11 +111,33 @@ func c14Payload(c c14Case, logout bool) []byte {
 	default:
 		w, _ = flate.NewWriter(&buf, flate.BestCompression)
 	}
-	w.Write([]byte(pre))
 	chunk := bytes.Repeat([]byte(" "), 1<<20)
 	if c.Placement == "text" || c.Placement == "attr" {
 		chunk = bytes.Repeat([]byte("A"), 1<<20)
 	}
+	if c.FirstStream > 0 {
+		// several complete raw DEFLATE streams back to back
+		total := c.SizeMiB << 20
+		written := 0
+		emit := func(b []byte) { w.Write(b); written += len(b) }
+		next := func() { w.Close(); w, _ = flate.NewWriter(&buf, flate.BestCompression) }
+		emit([]byte(pre))
+		for written < c.FirstStream {
+			n := min(len(chunk), c.FirstStream-written)
+			emit(chunk[:n])
+		}
+		next()
+		for written < total {
+			for k := 0; k < 8 && written < total; k++ {
+				emit(chunk)
+			}
+			next()
+		}
+		w.Write([]byte(post))
+		w.Close()
+		return buf.Bytes()
+	}
+	w.Write([]byte(pre))
 	for i := 0; i < c.SizeMiB; i++ {
 		w.Write(chunk)
 	}
@@ -164,7 +191,9 @@ func c14Worker(c c14Case) c14Result {
 	}
 	runtime.GC()
 	runtime.ReadMemStats(&m0)
+	total0 := vhook.InflatedBytes.Load()
 	rep := mk()
+	res.Total = vhook.InflatedBytes.Load() - total0
 	runtime.ReadMemStats(&m1)
 	runtime.GC()
 	runtime.GC()
@@ -199,7 +228,7 @@ func runC14(ctx Ctx) int {
 		}
 	}
 	run := ev.NewRun("C14")
-	run.Rule = "grid: inflated size {1,8,32,64 MiB quick; +256 MiB, 1 GiB thorough} x padding placement {comment, text, attribute value, after the root element} x surrounding request {valid, invalid} x entry {SSO query, SSO form, logout form, logout query} x SAMLEncoding parameter {declared, omitted}; plus the same data in a zlib (RFC 1950) / gzip container (32, 64 MiB), plus histories of 16 (thorough 40) identical oversized requests on one process with the last one measured, plus one storage operation failing (signing-key lookup error / nil record, service-provider lookup, persist) while the largest payload is served, fresh and after an earlier request; each case = one real ServeHTTP in a fresh worker process; oracle: bytes delivered by the inflater (counted by the overlay's pass-through reader) <= 20 MiB, TotalAlloc delta <= 160 MiB, live heap retained after the request <= 48 MiB, and any payload larger than the bound is not accepted"
+	run.Rule = "grid: inflated size {1,8,32,64 MiB quick; +256 MiB, 1 GiB thorough} x padding placement {comment, text, attribute value, after the root element} x surrounding request {valid, invalid} x entry {SSO query, SSO form, logout form, logout query} x SAMLEncoding parameter {declared, omitted}; plus the same data in a zlib (RFC 1950) / gzip container (32, 64 MiB), plus histories of 16 (thorough 40) identical oversized requests on one process with the last one measured, plus payloads made of several complete DEFLATE streams whose first one inflates to exactly 1 MiB, 10 MiB-1, 10 MiB, 10 MiB+1, 10 MB-1, 10 MB, 10 MB+1, 16 MiB, plus one storage operation failing (signing-key lookup error / nil record, service-provider lookup, persist) while the largest payload is served, fresh and after an earlier request; each case = one real ServeHTTP in a fresh worker process; oracle: bytes delivered by one inflater (counted by the overlay's pass-through reader) <= 20 MiB and by all inflaters of the request together <= 44 MiB, TotalAlloc delta <= 160 MiB, live heap retained after the request <= 48 MiB, and any payload larger than the bound is not accepted"
 	run.Assume = []string{"the inflater is compress/flate (the byte counter sits on flate.NewReader); if a change replaces it the allocation clause still decides", "the counting reader aborts an execution at 128 MiB so a violating tree is reported instead of exhausting memory"}
 	judge := func(c c14Case, r c14Result) []string {
 		var bad []string
@@ -208,6 +237,9 @@ func runC14(ctx Ctx) int {
 		}
 		if r.Delivered > c14DeliveredBound {
 			bad = append(bad, "inflater-delivers-more-than-the-bound")
+		}
+		if r.Total > c14TotalBound {
+			bad = append(bad, "inflaters-together-deliver-more-than-the-bound")
 		}
 		if r.AllocDelta > c14AllocBound {
 			bad = append(bad, "allocation-proportional-to-inflated-size")
@@ -290,6 +322,14 @@ func runC14(ctx Ctx) int {
 			}
 		}
 	}
+	// several DEFLATE streams back to back: the first one ends exactly at / next to the bounds a decoder might use
+	for _, fs := range []int{1 << 20, 10<<20 - 1, 10 << 20, 10<<20 + 1, 10_000_000 - 1, 10_000_000, 10_000_000 + 1, 16 << 20} {
+		for _, pl := range []string{"comment", "attr"} {
+			for _, e := range []string{"sso-query", "sso-form", "logout-form", "logout-query"} {
+				cases = append(cases, c14Case{SizeMiB: sizes[len(sizes)-1], Placement: pl, Valid: true, Entry: e, FirstStream: fs})
+			}
+		}
+	}
 	// storage failures while the oversized request is served (error paths must stay bounded too): every storage operation the
 	// SSO / logout handlers call before or after decoding x {error, nil key record} x placements x entries, fresh and after
 	// one earlier request
@@ -344,6 +384,9 @@ func runC14(ctx Ctx) int {
 			}
 			if c.Fault != "" {
 				labels = append(labels, "storage-failure="+c.Fault)
+			}
+			if c.FirstStream > 0 {
+				labels = append(labels, fmt.Sprintf("several-deflate-streams,first=%d", c.FirstStream))
 			}
 			if int64(c.SizeMiB)<<20 > c14DeliveredBound {
 				labels = append(labels, "inflated>bound")
